@@ -32,7 +32,7 @@ def decode(block, bps, n):
     return out
 
 
-def impl_history(kind, path, n, w, ch, block_dur, hop_dur, record, max_read, ops, use_recorder_class=False):
+def impl_history(kind, path, n, w, ch, block_dur, hop_dur, record, max_read, ops, use_recorder_class=False, pre_open_reads=0):
     from auditok.util import AudioReader, Recorder
     bps = w * ch
     data = mk_data(n, bps)
@@ -50,6 +50,12 @@ def impl_history(kind, path, n, w, ch, block_dur, hop_dur, record, max_read, ops
             rd = AudioReader(inp, block_dur=block_dur, hop_dur=hop_dur, record=record, max_read=max_read, **kw)
     except Exception as e:
         return ("ctor", exc_code(e))
+    for _ in range(pre_open_reads):
+        # a read attempted before open() fails (the source is not open) and must not consume anything of the visible data
+        try:
+            rd.read()
+        except Exception:
+            pass
     rd.open()
     outs = []
     for o in ops:
@@ -164,6 +170,58 @@ def expected_blocks(v, W, H, count):
     return out
 
 
+def long_recordings(r, quick):
+    """C19 on long recordings (thousands of reads before the first rewind), judged directly on the bytes"""
+    from auditok.util import AudioReader, Recorder
+    evals, viol = 0, None
+    for (n, W, H, mr, w, ch) in ([(2600, 1, None, None, 2, 1), (2300, 2, 1, None, 1, 2), (5000, 4, 1, 2.5, 2, 1), (1500, 1, None, 1.2, 1, 1)] if quick else
+                                 [(2600, 1, None, None, 2, 1), (2300, 2, 1, None, 1, 2), (5000, 4, 1, 2.5, 2, 1), (1500, 1, None, 1.2, 1, 1),
+                                  (9000, 3, 2, None, 4, 1), (7000, 1, None, 6.0005, 2, 2), (4200, 2, None, None, 2, 3)]):
+        rate = 1000
+        bps = w * ch
+        data = bytes(r.randrange(256) for _ in range(n * bps))
+        vis = n if mr is None else min(n, round(mr * rate))
+        hop = W if H is None else H
+        for k in (1030, 1500, 2049, 10 ** 6):
+            for cls in ("AudioReader", "Recorder"):
+                try:
+                    kw = dict(block_dur=W / rate, hop_dur=(None if H is None else H / rate), max_read=mr, sr=rate, sw=w, ch=ch)
+                    rd = AudioReader(data, record=True, **kw) if cls == "AudioReader" else Recorder(data, **kw)
+                    rd.open()
+                    blocks = []
+                    for _ in range(k):
+                        b = rd.read()
+                        if b is None:
+                            break
+                        blocks.append(b)
+                    rd.rewind()
+                    got = rd.data
+                    replay = []
+                    for _ in range(len(blocks) + 1):
+                        b = rd.read()
+                        if b is None:
+                            break
+                        replay.append(b)
+                    rd.rewind()
+                    again = rd.data
+                except Exception as e:   # noqa
+                    viol = viol or {"what": "long recording raised %s: %s" % (type(e).__name__, e), "samples": n, "block": W, "hop": H, "max_read": mr, "reads": k}
+                    continue
+                evals += 1
+                nb = len(blocks)
+                consumed = 0 if nb == 0 else min(vis, nb * W if H is None else W + (nb - 1) * hop)
+                what = None
+                if got != data[:consumed * bps]:
+                    what = "data holds %d bytes after %d reads, the consumed portion is %d bytes%s" % (len(got), nb, consumed * bps, "" if len(got) == consumed * bps else " (content differs too)" if got != data[:len(got)] else "")
+                elif replay[:nb] != blocks[:len(replay)] or len(replay) < min(nb, 1):
+                    what = "replay after rewind differs from the blocks read before it (first difference at block %d)" % next((i for i, (a, b) in enumerate(zip(replay, blocks)) if a != b), min(len(replay), nb))
+                elif again != got:
+                    what = "data changed after a second rewind"
+                if what and viol is None:
+                    viol = {"what": what, "class": cls, "samples": n, "format(sw,ch)": [w, ch], "block_samples": W, "hop_samples": H, "max_read": mr, "reads_before_rewind": nb, "rate": rate}
+    return evals, viol
+
+
 def histories(prop, n, W, H, quick):
     hop = W if H is None else H
     nb = 1 + max(0, n - W + hop - 1) // hop + 1
@@ -231,12 +289,14 @@ def run(prop, tier):
                                 if prop == "C19" and not record and len(ops) > 6:
                                     continue
                                 use_rec = prop == "C19" and record and (n + W) % 3 == 0
-                                st, outs = impl_history(kind, path, n, w, ch, bd, hd, record, mr, ops, use_rec)
+                                pre = 2 if (n + 2 * W + (Hn or 0)) % 4 == 0 else 0
+                                st, outs = impl_history(kind, path, n, w, ch, bd, hd, record, mr, ops, use_rec, pre)
                                 pcases.append(pc)
                                 cases.append([list(range(n)), None, None, 1 if record else 0, None, ops])
                                 impl.append((st, outs))
                                 meta.append({"source_kind": kind, "samples": n, "format(sw,ch)": [w, ch], "block_dur": bd, "hop_dur": hd,
-                                             "max_read": mr, "record": record, "ops(0=read,1=rewind,2=data)": ops, "Recorder_class": use_rec})
+                                             "max_read": mr, "record": record, "ops(0=read,1=rewind,2=data)": ops, "Recorder_class": use_rec,
+                                             "failed_reads_before_open": pre})
         # degenerate constructor arguments (rejections)
         for bd, hd in ((0.0, None), (-0.1, None), (0.05, None), (0.09, None), (0.2, 0.3), (0.2, 0.25), (0.3, 0.30000000000000004), (1e-9, None)):
             st, outs = impl_history("bytes", None, 5, 1, 1, bd, hd, False, None, [0])
@@ -273,6 +333,11 @@ def run(prop, tier):
                 viol = {"what": wv, **meta[i], "impl_outputs": outs}
         if any(x[0] == 0 and x[1] for x in mo):
             nontriv.add(C.dumps(cs))
+    if prop == "C19":
+        ev_l, v_l = long_recordings(r, quick)
+        res.notes["long_recordings"] = ev_l
+        if viol is None and v_l:
+            viol = v_l
     vm = C.vm_crosscheck(mcases, mouts, prop, 30)
     res.coverage.update({"evaluations": len(cases), "distinct_nontrivial": len(nontriv),
                          "rule": "exhaustive grid: source length 0..%d samples x block 1..%d x hop in {None, 1..block} x max_read in %r x record on/off x formats %r over buffer / raw-file / wav-file sources, with %s; non-trivial = distinct configuration+history returning at least one block" % (
